@@ -590,3 +590,19 @@ package larking
 //@   witness verifWitnessGRPCRecv
 //@   assert at "if err := s.codec.Unmarshal(b, args); err != nil {" [size-limit C08] len(b) <= s.opts.maxReceiveMessageSize
 //@   ensures [truncated-frame-is-an-error C06] at "return err" #3 err != io.EOF
+
+// Assumed interface contract (all implementations delegate to protobuf-go).
+//@ iface (Codec).MarshalAppend
+//@   params (recv, b, v)
+//@   returns (out, err)
+//@   modifies E$uint8
+//@   ensures err == nil ==> len(out) >= len(b)
+
+// Replies are limited by the send limit (a reply within it is never refused on
+// size grounds) and framed with their exact length.
+//@ func (*streamGRPC).SendMsg serves C06 C08 C09 partial index slice make nil assert ghost pre post
+//@   returns (err)
+//@   requires s != nil && s.w != nil && s.codec != nil && impl(m, "proto.Message") && impl(s.w, "http.Flusher")
+//@   requires s.opts.maxSendMessageSize <= 4294967295
+//@   witness verifWitnessGRPCSend
+//@   ensures [refused-only-over-send-limit C08] at `return fmt.Errorf("grpc: received message larger than max (%d vs. %d)", size, s.opts.maxReceiveMessageSize)` len(b#1) - 5 > s.opts.maxSendMessageSize
